@@ -121,3 +121,48 @@ Proof.
   unfold jreport_ok. cbn [j_digest j_seq j_chan j_va j_ts j_values].
   split; [apply hex_encode_chars; exact Hb|]. repeat (split; [assumption|]). eapply typed_all_ok. exact Et.
 Qed.
+
+(* ---------- the report embedded in a longer text: the reader returns exactly what follows it ---------- *)
+Theorem json_report_parse_rest_bytes j rest : jreport_ok j -> json_report_parse_rest (json_report_bytes j ++ rest) = Some (j, rest).
+Proof.
+  intros (Hdg & Hsq & Hch & Hva & Hts & Hvals). unfold json_report_parse_rest, json_report_bytes.
+  rewrite <- !app_assoc.
+  rewrite is_prefix_complete.
+  rewrite (span_app is_hex_char (j_digest j) _ Hdg) by reflexivity. rewrite is_prefix_complete.
+  match goal with |- context [span is_digit (nat_string (j_seq j) ++ ?r)] => destruct (span_num (j_seq j) r Hsq eq_refl) as (Hs1 & Hn1 & Hv1) end.
+  rewrite Hs1. destruct (nat_string (j_seq j)) as [|c1 q1] eqn:E1; [congruence|]. rewrite is_prefix_complete.
+  match goal with |- context [span is_digit (nat_string (j_chan j) ++ ?r)] => destruct (span_num (j_chan j) r Hch eq_refl) as (Hs2 & Hn2 & Hv2) end.
+  rewrite Hs2. destruct (nat_string (j_chan j)) as [|c2 q2] eqn:E2; [congruence|]. rewrite is_prefix_complete.
+  match goal with |- context [span is_digit (nat_string (j_va j) ++ ?r)] => destruct (span_num (j_va j) r Hva eq_refl) as (Hs3 & Hn3 & Hv3) end.
+  rewrite Hs3. destruct (nat_string (j_va j)) as [|c3 q3] eqn:E3; [congruence|]. rewrite is_prefix_complete.
+  match goal with |- context [span is_digit (nat_string (j_ts j) ++ ?r)] => destruct (span_num (j_ts j) r Hts eq_refl) as (Hs4 & Hn4 & Hv4) end.
+  rewrite Hs4. destruct (nat_string (j_ts j)) as [|c4 q4] eqn:E4; [congruence|]. rewrite is_prefix_complete.
+  set (tail := s_k7 ++ (if j_specimen j then s_true else s_false) ++ rest).
+  assert (Hfin : forall vs, match is_prefix s_k7 tail with
+            | Some r13 =>
+                match is_prefix s_true r13 with
+                | Some rest0 => Some ({| j_digest := j_digest j; j_seq := digits_val (c1 :: q1); j_chan := digits_val (c2 :: q2);
+                             j_va := digits_val (c3 :: q3); j_ts := digits_val (c4 :: q4); j_values := vs; j_specimen := true |}, rest0)
+                | None => match is_prefix s_false r13 with
+                          | Some rest0 => Some ({| j_digest := j_digest j; j_seq := digits_val (c1 :: q1); j_chan := digits_val (c2 :: q2);
+                                  j_va := digits_val (c3 :: q3); j_ts := digits_val (c4 :: q4); j_values := vs; j_specimen := false |}, rest0)
+                          | None => None end
+                end
+            | None => None end =
+            Some ({| j_digest := j_digest j; j_seq := j_seq j; j_chan := j_chan j; j_va := j_va j; j_ts := j_ts j; j_values := vs;
+                    j_specimen := j_specimen j |}, rest)).
+  { intros vs. subst tail. rewrite is_prefix_complete. rewrite Hv1, Hv2, Hv3, Hv4. destruct (j_specimen j).
+    - rewrite is_prefix_complete. reflexivity.
+    - change (is_prefix s_true (s_false ++ rest)) with (@None bytes). rewrite is_prefix_complete. reflexivity. }
+  destruct (j_values j) as [|e vs] eqn:Ev.
+  - cbn [join_values app]. fold tail. replace (is_prefix s_k7 tail) with (Some ((if j_specimen j then s_true else s_false) ++ rest)) at 1
+      by (subst tail; rewrite is_prefix_complete; reflexivity).
+    rewrite (Hfin []). destruct j; cbn in *; subst; reflexivity.
+  - fold tail.
+    assert (Hnone : is_prefix s_k7 (join_values (e :: vs) ++ tail) = None).
+    { destruct vs as [|e' vs']; [cbn [join_values]|change (join_values (e :: e' :: vs')) with (json_tt (fst e) (snd e) ++ 44 :: join_values (e' :: vs')); rewrite <- app_assoc].
+      all: match goal with |- is_prefix s_k7 (json_tt ?t ?v ++ ?tl) = None => destruct (json_tt_head t v tl) as (r & ->); reflexivity end. }
+    rewrite Hnone. rewrite parse_values_join; [|discriminate|exact Hvals| |subst tail; exact I].
+    2:{ rewrite app_length. pose proof (length_join_values (e :: vs)). cbn [length] in *. lia. }
+    rewrite (Hfin (e :: vs)). destruct j; cbn in *; subst; reflexivity.
+Qed.
